@@ -277,7 +277,7 @@ class L(Pat):
     def m0(self, ctx, e):
         e = strip(e)
         if isinstance(e, dict) and e.get('k') == 'field' and ctx.names is not None and self.name not in ctx.names \
-                and _rooted_at_local(e):
+                and _rooted_at_local(e) and (self.name.endswith(str(e.get('n'))) or str(e.get('n')).endswith(self.name)):
             # the variable became a field of a small value struct (`span.reversed`): unify like a renamed local
             key = ('F', canon(e))
             bound = ctx.env.get(self.name)
